@@ -192,7 +192,7 @@ pub(super) fn families(cx: &mut Ctx, rng: &mut Rng, thorough: bool) {
         }
         // the gauge: a thread stops after it has counted its block in active_blocks and before it stores the derived
         // utilization; the other thread allocates / frees in between
-        for k in 1..=7usize {
+        for k in 1..=8usize {
             for (q0, q1) in [(p("A A"), p("A A F0")), (p("A F0 A"), p("A A")), (p("A A F0 F0"), p("A F0 A")), (p("A"), p("A F0 A A"))] {
                 // the last operation of thread 0 is the one that stops: what it stores afterwards is what stays
                 let mut sched: Vec<usize> = whole(0, q0.len() - 1);
@@ -416,7 +416,7 @@ fn stress_lf_wide(nthr: usize, iters: usize, seed: u64, hold: usize, variant: u6
         let fd = st.fast_deallocs.load(Ordering::SeqCst);
         let x = fd.wrapping_sub(frc.load(Ordering::SeqCst));
         if x > failed_bulk_slack.load(Ordering::SeqCst) { f.push(format!("fast_deallocs {} != frees {}", fd, frc.load(Ordering::SeqCst))); }
-        if fa + seen.len() as u64 != okc.load(Ordering::SeqCst) + x { f.push(format!("fast_allocs {} + carved {} != successful allocations {}", fa, seen.len(), okc.load(Ordering::SeqCst))); }
+        if x <= failed_bulk_slack.load(Ordering::SeqCst) && fa + seen.len() as u64 != okc.load(Ordering::SeqCst) + x { f.push(format!("fast_allocs {} + carved {} != successful allocations {}", fa, seen.len(), okc.load(Ordering::SeqCst))); }
         if st.memory_usage.load(Ordering::SeqCst) != bump as u64 - 8 { f.push(format!("memory_usage {} != {} bytes carved", st.memory_usage.load(Ordering::SeqCst), bump as u64 - 8)); }
         let ratio = st.contention_ratio();
         if !(0.0..=1.0).contains(&ratio) { f.push(format!("contention_ratio() = {}", ratio)); }
@@ -733,6 +733,17 @@ fn stress_sp_wide(nthr: usize, iters: usize, seed: u64, hold: usize, variant: u6
             if f.is_empty() && n_stack + in_caches != dm {
                 f.push(format!("{} chunks were created, all freed, but only {} are in thread caches and {} on the shared stack: {} lost", dm, in_caches, n_stack, dm as i64 - (n_stack + in_caches) as i64));
             }
+        }
+        // guards that outlive the pool: their chunks stay valid and are released by the guards themselves
+        if f.is_empty() {
+            let mut last: Vec<SecurePooledPtr> = (0..3).filter_map(|_| pools[0].allocate_with_hint(true).ok()).collect();
+            for (i, g) in last.iter_mut().enumerate() { let n = g.size().min(256); for b in g.as_mut_slice()[..n].iter_mut() { *b = 0xC0 + i as u8; } }
+            drop(pools);
+            for (i, g) in last.iter().enumerate() {
+                let n = g.size().min(256);
+                if g.as_slice()[..n].iter().any(|&b| b != 0xC0 + i as u8) || g.validate().is_err() { f.push("a chunk was damaged when its pool was dropped before the guard".into()); }
+            }
+            drop(last);
         }
     }
     f
